@@ -186,13 +186,16 @@ def _replace_factors(factors: Dict[Dimension, List[Unit]]) -> RoughPlan:
                         break
 
         for dimension, unit, alternative in replacements:
-            overall_sign = 1
-            if not unit.dimension.is_factor(dimension):
-                if not (unit**-1).dimension.is_factor(dimension):
-                    raise ConversionNotFound(
-                        f"No replacement for {unit} as a factor of {dimension}"
-                    )
+            # factors are filed under their own dimension when their exponent is
+            # positive, and under its inverse when it is negative (see _splat)
+            if unit.dimension is dimension:
+                overall_sign = 1
+            elif (unit**-1).dimension is dimension:
                 overall_sign = -1
+            else:
+                raise ConversionNotFound(
+                    f"No replacement for {unit} as a factor of {dimension}"
+                )
 
             ratio = _ratios[unit][alternative]
 
